@@ -1,10 +1,36 @@
 SPEC = dict(
     id="C17",
     props_file="Props/C17.v",
-    harness=[dict(pkg="share/shwap/p2p/shrex/peers", test="TestVerifC17", timeout=600, timeout_thorough=2400)],
-    translators=[],
+    harness=[dict(pkg="share/shwap/p2p/shrex/peers", test="TestVerifC17", timeout=600, timeout_thorough=3000)],
+    translators=["locks"],
     allowed_axioms=[],
-    level_text="(work in progress)",
-    rule="(work in progress)",
-    trusted_base=[],
+    level_text=("Machine-checked theorems (Coq, no axioms). (1) Deadlock freedom: a generic theorem (Base/LockOrder.v: any number of threads, "
+                "programs of any length, interleaving semantics at mutex granularity) instantiated with the held->acquired lock graph of the "
+                "peers package, which a translator regenerates from the Go source on every run and Coq decides acyclic by computation. "
+                "(2) Pool: an executable model of pool.go+timedqueue.go at the granularity of its atomic (mutex-protected) steps, incl. single "
+                "cool-down expiries and the try/read-channel/wake/cancel steps of any number of next() callers; over ALL step sequences: "
+                "activeCount = number of active peers (+ list/map consistency, hasPeer <-> activeCount>0), tryGet returns only active peers, "
+                "never panics, never misses one, an offered peer has no cool-down younger than ttl, a parked waiter's channel is closed as soon "
+                "as a peer is active and its retry gets one. (3) Manager: model of manager.go with one event per entry-point call; over all event "
+                "sequences and all map-iteration orders: a peer is in the general pool only if discovery added it or a hash it announced was "
+                "confirmed, and a blacklisted peer is never returned by Peer again. Both models are re-validated against the real pool / real "
+                "Manager on ~900 generated operation sequences (~30k operations) per run. PARTIAL: interleavings inside one Manager call "
+                "(the Manager holds no lock across a call) and Go-runtime scheduling/data races are not modelled; they are exercised only by the "
+                "harness' deterministic two-thread deadlock schedule and concurrent stress with a watchdog."),
+    rule=("pool sequences: 13 scripted (unit-test scenarios, cool-down/remove/re-add/cool-down, waiters) + 500 random sequences of 8-48 operations over "
+          "3-6 peers {add 1-3, remove, tryGet, putOnCooldown (biased to active peers), clock tick 0-20 s with ttl 10 s, cleanup, next() start/cancel}, "
+          "cleanup thresholds {0,1,2,3}; non-trivial = the sequence has a cool-down followed by a remove and by a clock tick. "
+          "manager sequences: 11 scripted + 400 random sequences of 6-36 events over 5 peers x 4 hashes {shrex-sub notification (right/old/random height, "
+          "self), header, Peer, DoneFunc(noop|cooldown|blacklist) of an outstanding peer, discovery add/remove, disconnect, pool ageing, GC round, clock "
+          "tick}, blacklisting on in 70%; non-trivial = a notification followed by a confirmation and (when blacklisting is on) a blacklisting event. "
+          "distinct = distinct Coq case term (events + every returned value + projected final state)."),
+    trusted_base=[
+        "translator /verif/translators/locks (go/ast+go/types, ~600 lines): extracts mutex events per function, follows same-package calls and function-valued fields bound syntactically (timedQueue.onPop = pool.afterCooldown), may-hold sets over branches/loops; calls leaving the package or going through interfaces/unbound function values are assumed not to re-enter the package's locks (listed in the generated file); locks are identified by declaring type+field (instance-insensitive, RLock = Lock)",
+        "the hypothesis of C17_peers_no_deadlock (every thread follows the generated edge list and releases what it took) is what the translator asserts of the Go code; Go mutex semantics (exclusive, blocking) as modelled in Base/LockOrder.v",
+        "models Peers/Pool.v and Peers/Manager.v hand-written after pool.go, timedqueue.go, manager.go; tied by the correspondence harness (real pool with benbjohnson mock clock injected like timedqueue_test.go; real Manager built like manager_test.go: mocknet host, BasicConnectionGater over a map datastore, real subscribeHeader / subscribeDisconnectedPeers loops fed by scripted subscriptions; one GC round = cleanUp + blacklistPeers as in the GC loop body; pool age = createdAt moved 1h back)",
+        "pool steps are atomic because every pool method holds pool.m (and the queue its mutex); manager events are modelled as atomic although the Manager holds no lock across a call (partial)",
+        "Go map iteration order enters the manager model as an explicit event parameter (theorems quantify over it; cases record the order the implementation used)",
+        "libp2p host / connection gater / pubsub are mocked or real third-party code, not verified; metrics are off; blacklistedHashes LRU eviction (1024 entries) is not modelled",
+        "Peer()'s blocking wait is modelled only up to 'would wait' (PWait); the wait itself is the pool's next(), covered by the pool model",
+    ],
 )
